@@ -107,6 +107,11 @@ type PartAdder func(string) []string
 
 // BuildName builds a name from segments
 func (s SplitKey) BuildName(segments []string, startIndex int, adder PartAdder) string {
+	if startIndex > len(s) {
+		// a short key, e.g. a pointer to a response or a parameter rather than to its schema: no part left to add
+		startIndex = len(s)
+	}
+
 	for i, part := range s[startIndex:] {
 		if _, ignored := ignoredKeys[part]; !ignored || s.isKeyName(startIndex+i) {
 			segments = append(segments, adder(part)...)
